@@ -121,3 +121,5 @@ ITEMS = [
                 ('unchanged_on_error', 'r is Err ==> wsame(*final(self), *old(self))')]),
 ]
 CANARIES = ['PolicySet::link', 'PolicySet::remove_template']
+# accessors of the public wrapper that belong to C08's "a linked policy presents its template's data" but are outside every contract (string keys are parsed)
+UNCOVERED = [('cedar-policy/src/api.rs', 'impl PolicySet > fn annotation'), ('cedar-policy/src/api.rs', 'impl PolicySet > fn template_annotation')]
